@@ -62,7 +62,13 @@ func runC12(c *runCtx) {
 	g.Plain = true // no comments / newlines: corruptions re-join tokens with single spaces
 	simpleGood := []string{"SELECT a FROM t", "SELECT a, b FROM t WHERE a = 1", "DELETE FROM t WHERE a = 1", "INSERT INTO t (a) VALUES (1)",
 		"DROP TABLE t", "TRUNCATE TABLE t", "SELECT COUNT(*) FROM t GROUP BY a", "SHOW TABLES", "DESCRIBE t", "SELECT INTERVAL 3 DAY",
-		"CREATE TABLE t (a INT)", "SELECT a FROM t ORDER BY a LIMIT 3", "REPLACE INTO t (a) VALUES (1)", "EXPLAIN SELECT 1"}
+		"CREATE TABLE t (a INT)", "SELECT a FROM t ORDER BY a LIMIT 3", "REPLACE INTO t (a) VALUES (1)", "EXPLAIN SELECT 1",
+		// statements with several nodes of one kind each (tuples, calls, CASEs, casts, sub-queries, arrays, windows): a node
+		// a malformed neighbour left in a bad state shows in one of them
+		"SELECT * FROM u WHERE (a, b) IN ((1, 2), (3, 4))", "SELECT f(a), g(b), h(f(c)) FROM t", "SELECT CASE WHEN a THEN 1 END, CASE b WHEN 1 THEN 2 ELSE 3 END FROM t",
+		"SELECT CAST(a AS INT), CAST(b AS TEXT) FROM t", "SELECT a FROM t WHERE a IN (SELECT b FROM u) AND c IN (SELECT d FROM v)", "SELECT ARRAY[1, 2], ARRAY[3] FROM t",
+		"SELECT SUM(a) OVER (PARTITION BY b), AVG(c) OVER (ORDER BY d) FROM t", "SELECT a BETWEEN 1 AND 2, b BETWEEN 3 AND 4 FROM t", "SELECT (1, 2), (3, 4), (5, 6) FROM t",
+		"INSERT INTO t (a, b) VALUES (1, 2), (3, 4), (5, 6)", "SELECT a FROM t WHERE EXISTS (SELECT 1 FROM u) AND NOT EXISTS (SELECT 1 FROM v)"}
 	type seg struct {
 		text string
 		good bool
@@ -106,6 +112,19 @@ func runC12(c *runCtx) {
 			base = g.Statement()
 		}
 		base = strings.ReplaceAll(base, ";", "")
+		if c.rng.Chance(8) {
+			// a statement that is wrong from its first token on (no statement begins like this)
+			bad := c.rng.Pick([]string{"FOO bar", ") x", "42", "x y z", "'text' , 1", "= 1", "bar ( 1 , 2 )", "* FROM t", ", a", "NULL"})
+			conv := convOf(bad)
+			if conv == nil || containsStartAfterFirst(conv) {
+				return seg{}, false
+			}
+			if _, err := gosqlx.Parse(bad); err == nil {
+				return seg{}, false
+			}
+			res.stat("segment-wrong-from-first-token")
+			return seg{bad, false, ""}, true
+		}
 		if c.rng.Chance(12) {
 			// a malformed statement that goes on, after the point where it fails, with words of the grammar written as
 			// string literals and quoted names: they are values and names, not the start of anything
@@ -301,6 +320,18 @@ func runC12(c *runCtx) {
 					if se.Location.Line != i+1 || se.Location.Column < 1 || se.Location.Column > len(lines[i])+1 {
 						res.fail("recovery-error-location-outside-statement", "a recovery error is located outside the text of its own statement", wit,
 							map[string]any{"segment": i, "line_of_statement": i + 1, "location": fmt.Sprintf("%d:%d", se.Location.Line, se.Location.Column), "line_length": len(lines[i])})
+					}
+				}
+				// the recovery error's own line / column: inside its statement too, the start of the token it names, and
+				// the same place as the structured error it wraps
+				var rpe *parser.ParseError
+				if errors.As(gerrs[bi], &rpe) && rpe.Line > 0 {
+					if rpe.Line != i+1 || rpe.Column < 1 || rpe.Column > len(lines[i])+1 {
+						res.fail("recovery-error-location-outside-statement", "a recovery error (ParseError.Line/Column) is located outside the text of its own statement", wit,
+							map[string]any{"segment": i, "line_of_statement": i + 1, "location": fmt.Sprintf("%d:%d", rpe.Line, rpe.Column), "line_length": len(lines[i])})
+					} else if se != nil && se.Location.Line > 0 && (se.Location.Line != rpe.Line || se.Location.Column != rpe.Column) {
+						res.fail("recovery-error-two-locations", "a recovery error and the structured error it wraps name different places", wit,
+							map[string]any{"segment": i, "parse_error": fmt.Sprintf("%d:%d", rpe.Line, rpe.Column), "wrapped": fmt.Sprintf("%d:%d", se.Location.Line, se.Location.Column)})
 					}
 				}
 				bi++
